@@ -18,6 +18,7 @@ import (
 
 	"verifmc/internal/vnode"
 	"verifmc/internal/xs"
+	"verifmc/props/c10"
 )
 
 // ---------------------------------------------------------------------------------------------------------------------
@@ -47,6 +48,7 @@ type instance struct {
 	Call     func(a, b uint64) (*pagedResult, error)
 	// WrapKey names the root cause when an arithmetic overflow of the two paging arguments explains a wrong answer
 	WrapKey string
+	byKey   map[string]map[string]int // order key -> element ids carrying it (built on first use)
 }
 
 func (in *instance) label() string {
@@ -659,27 +661,41 @@ func buildInstances(ci *chainIndex) []*instance {
 		}
 	}
 
-	// ---- liquidity / bridge lists: the bridge-and-liquidity spork is not active on these chains, their storage is
-	// empty; the ground truth is still read from the stores (and is empty).
-	{
+	// ---- liquidity / bridge lists: populated on the bridge chain only (elsewhere the bridge-and-liquidity spork is not
+	// active and the storage is empty); the ground truth is read from the stores in every case.
+	for _, ad := range []struct {
+		label string
+		a     types.Address
+	}{{"user1", u1}, {"user2", u2}, {"user3", u3}, {"unknown", unknownAddr}} {
+		ad := ad
 		lst := n.Chain.GetFrontierAccountStore(types.LiquidityContract).Storage()
-		ll, _, _, err := definition.GetLiquidityStakeListByAddress(lst, u1)
+		ll, _, _, err := definition.GetLiquidityStakeListByAddress(lst, ad.a)
 		if err != nil {
 			panic(err)
 		}
+		// documented order: expiration time, then id (definition.LiquidityStakeByExpirationTime)
+		sort.SliceStable(ll, func(i, j int) bool {
+			if ll[i].ExpirationTime != ll[j].ExpirationTime {
+				return ll[i].ExpirationTime < ll[j].ExpirationTime
+			}
+			return ll[i].Id.String() < ll[j].Id.String()
+		})
+		lid := func(s *definition.LiquidityStakeEntry) elem {
+			return strict(fmt.Sprintf("%s|%s|%s|%s|%d|%d|%s", s.Id, s.TokenStandard, bigStr(s.Amount), bigStr(s.WeightedAmount), s.StartTime, s.ExpirationTime, s.StakeAddress))
+		}
 		var le []elem
 		for _, s := range ll {
-			le = append(le, strict(s.Id.String()))
+			le = append(le, lid(s))
 		}
-		add(&instance{Method: "embedded.liquidity.getLiquidityStakeEntriesByAddress", Arg: "user1", Limit: api.RpcMaxPageSize, Truth: le, Total: int64(len(le)), WrapKey: "GetRange:index*count-uint32-wrap",
+		add(&instance{Method: "embedded.liquidity.getLiquidityStakeEntriesByAddress", Arg: ad.label, Limit: api.RpcMaxPageSize, Truth: le, Total: int64(len(le)), WrapKey: "GetRange:index*count-uint32-wrap",
 			Call: func(pi, ps uint64) (*pagedResult, error) {
-				l, err := liquidityApi.GetLiquidityStakeEntriesByAddress(u1, uint32(pi), uint32(ps))
+				l, err := liquidityApi.GetLiquidityStakeEntriesByAddress(ad.a, uint32(pi), uint32(ps))
 				if l == nil {
 					return nil, err
 				}
 				r := &pagedResult{Count: int64(l.Count)}
 				for _, s := range l.Entries {
-					r.List = append(r.List, strict(s.Id.String()))
+					r.List = append(r.List, lid(s))
 				}
 				return r, err
 			}})
@@ -699,15 +715,9 @@ func buildInstances(ci *chainIndex) []*instance {
 		if err != nil {
 			panic(err)
 		}
-		var ne, we, ue []elem
+		var ne []elem
 		for _, x := range nets {
-			ne = append(ne, strict(fmt.Sprintf("%d|%d|%s", x.NetworkClass, x.Id, x.Name)))
-		}
-		for _, x := range wraps {
-			we = append(we, strict(x.Id.String()))
-		}
-		for _, x := range unwraps {
-			ue = append(ue, strict(fmt.Sprintf("%s|%d", x.TransactionHash, x.LogIndex)))
+			ne = append(ne, strict(fmt.Sprintf("%d|%d|%s|%d", x.NetworkClass, x.Id, x.Name, len(x.TokenPairs))))
 		}
 		add(&instance{Method: "embedded.bridge.getAllNetworks", Limit: api.RpcMaxPageSize, Truth: ne, Total: int64(len(ne)), WrapKey: "GetRange:index*count-uint32-wrap",
 			Call: func(pi, ps uint64) (*pagedResult, error) {
@@ -717,54 +727,124 @@ func buildInstances(ci *chainIndex) []*instance {
 				}
 				r := &pagedResult{Count: int64(l.Count)}
 				for _, x := range l.List {
-					r.List = append(r.List, strict(fmt.Sprintf("%d|%d|%s", x.NetworkClass, x.Id, x.Name)))
+					r.List = append(r.List, strict(fmt.Sprintf("%d|%d|%s|%d", x.NetworkClass, x.Id, x.Name, len(x.TokenPairs))))
 				}
 				return r, err
 			}})
+		// wrap requests: storage (key) order, optionally filtered by destination / network; the unsigned ones in reverse
+		wid := func(x *definition.WrapTokenRequest) elem {
+			return strict(fmt.Sprintf("%s|%d|%d|%s|%s|%s|%s|%d|%q", x.Id, x.NetworkClass, x.ChainId, x.ToAddress, x.TokenStandard, bigStr(x.Amount), bigStr(x.Fee), x.CreationMomentumHeight, x.Signature))
+		}
+		wsel := func(keep func(x *definition.WrapTokenRequest) bool) []elem {
+			var es []elem
+			for _, x := range wraps {
+				if keep(x) {
+					es = append(es, wid(x))
+				}
+			}
+			return es
+		}
 		wres := func(l *embedded.WrapTokenRequestList, err error) (*pagedResult, error) {
 			if l == nil {
 				return nil, err
 			}
 			r := &pagedResult{Count: int64(l.Count)}
 			for _, x := range l.List {
-				r.List = append(r.List, strict(x.Id.String()))
+				r.List = append(r.List, wid(x.WrapTokenRequest))
 			}
 			return r, err
 		}
-		ures := func(l *embedded.UnwrapTokenRequestList, err error) (*pagedResult, error) {
-			if l == nil {
-				return nil, err
-			}
-			r := &pagedResult{Count: int64(l.Count)}
-			for _, x := range l.List {
-				r.List = append(r.List, strict(fmt.Sprintf("%s|%d", x.TransactionHash, x.LogIndex)))
-			}
-			return r, err
-		}
+		we := wsel(func(*definition.WrapTokenRequest) bool { return true })
 		add(&instance{Method: "embedded.bridge.getAllWrapTokenRequests", Limit: api.RpcMaxPageSize, Truth: we, Total: int64(len(we)), WrapKey: "GetRange:index*count-uint32-wrap",
 			Call: func(pi, ps uint64) (*pagedResult, error) {
 				return wres(bridgeApi.GetAllWrapTokenRequests(uint32(pi), uint32(ps)))
 			}})
-		add(&instance{Method: "embedded.bridge.getAllWrapTokenRequestsByToAddress", Arg: "\"\"", Limit: api.RpcMaxPageSize, Truth: we, Total: int64(len(we)), WrapKey: "GetRange:index*count-uint32-wrap",
-			Call: func(pi, ps uint64) (*pagedResult, error) {
-				return wres(bridgeApi.GetAllWrapTokenRequestsByToAddress("", uint32(pi), uint32(ps)))
-			}})
-		add(&instance{Method: "embedded.bridge.getAllWrapTokenRequestsByToAddressNetworkClassAndChainId", Arg: "\"\",2,1", Limit: api.RpcMaxPageSize, Truth: we, Total: int64(len(we)), WrapKey: "GetRange:index*count-uint32-wrap",
-			Call: func(pi, ps uint64) (*pagedResult, error) {
-				return wres(bridgeApi.GetAllWrapTokenRequestsByToAddressNetworkClassAndChainId("", 2, 1, uint32(pi), uint32(ps)))
-			}})
-		add(&instance{Method: "embedded.bridge.getAllUnsignedWrapTokenRequests", Limit: api.RpcMaxPageSize, Truth: we, Total: int64(len(we)), WrapKey: "GetRange:index*count-uint32-wrap",
+		dests := append([]string{""}, bridgeDests...)
+		dests = append(dests, "0x00000000000000000000000000000000000c18ff") // a destination nobody wrapped for
+		for _, d := range dests {
+			d := d
+			byTo := wsel(func(x *definition.WrapTokenRequest) bool { return d == "" || x.ToAddress == d })
+			add(&instance{Method: "embedded.bridge.getAllWrapTokenRequestsByToAddress", Arg: fmt.Sprintf("%q", d), Limit: api.RpcMaxPageSize, Truth: byTo, Total: int64(len(byTo)), WrapKey: "GetRange:index*count-uint32-wrap",
+				Call: func(pi, ps uint64) (*pagedResult, error) {
+					return wres(bridgeApi.GetAllWrapTokenRequestsByToAddress(d, uint32(pi), uint32(ps)))
+				}})
+			for _, nw := range [][2]uint32{{c10.BridgeNetClass, c10.BridgeNetChain}, {2, 1}, {1, c10.BridgeNetChain}} {
+				nw := nw
+				if d != "" && d != bridgeDests[1] && nw[1] != c10.BridgeNetChain {
+					continue
+				}
+				byNet := wsel(func(x *definition.WrapTokenRequest) bool {
+					return x.NetworkClass == nw[0] && x.ChainId == nw[1] && (d == "" || x.ToAddress == d)
+				})
+				add(&instance{Method: "embedded.bridge.getAllWrapTokenRequestsByToAddressNetworkClassAndChainId", Arg: fmt.Sprintf("%q,%d,%d", d, nw[0], nw[1]), Limit: api.RpcMaxPageSize, Truth: byNet, Total: int64(len(byNet)), WrapKey: "GetRange:index*count-uint32-wrap",
+					Call: func(pi, ps uint64) (*pagedResult, error) {
+						return wres(bridgeApi.GetAllWrapTokenRequestsByToAddressNetworkClassAndChainId(d, nw[0], nw[1], uint32(pi), uint32(ps)))
+					}})
+			}
+		}
+		var unsigned []elem
+		for i := len(wraps) - 1; i >= 0; i-- {
+			if wraps[i].Signature == "" {
+				unsigned = append(unsigned, wid(wraps[i]))
+			}
+		}
+		add(&instance{Method: "embedded.bridge.getAllUnsignedWrapTokenRequests", Limit: api.RpcMaxPageSize, Truth: unsigned, Total: int64(len(unsigned)), WrapKey: "GetRange:index*count-uint32-wrap",
 			Call: func(pi, ps uint64) (*pagedResult, error) {
 				return wres(bridgeApi.GetAllUnsignedWrapTokenRequests(uint32(pi), uint32(ps)))
 			}})
+		// unwrap requests: storage (key) order; by recipient: newest registration first (equal heights: order left open)
+		uid := func(x *definition.UnwrapTokenRequest, byHeight bool) elem {
+			id := fmt.Sprintf("%s|%d|%d|%d|%s|%s|%s|%d|%d|%d", x.TransactionHash, x.LogIndex, x.NetworkClass, x.ChainId, x.ToAddress, x.TokenStandard, bigStr(x.Amount), x.RegistrationMomentumHeight, x.Redeemed, x.Revoked)
+			if byHeight {
+				return elem{id, fmt.Sprintf("%020d", x.RegistrationMomentumHeight)}
+			}
+			return strict(id)
+		}
+		ures := func(byHeight bool) func(l *embedded.UnwrapTokenRequestList, err error) (*pagedResult, error) {
+			return func(l *embedded.UnwrapTokenRequestList, err error) (*pagedResult, error) {
+				if l == nil {
+					return nil, err
+				}
+				r := &pagedResult{Count: int64(l.Count)}
+				for _, x := range l.List {
+					r.List = append(r.List, uid(x.UnwrapTokenRequest, byHeight))
+				}
+				return r, err
+			}
+		}
+		var ue []elem
+		for _, x := range unwraps {
+			ue = append(ue, uid(x, false))
+		}
 		add(&instance{Method: "embedded.bridge.getAllUnwrapTokenRequests", Limit: api.RpcMaxPageSize, Truth: ue, Total: int64(len(ue)), WrapKey: "GetRange:index*count-uint32-wrap",
 			Call: func(pi, ps uint64) (*pagedResult, error) {
-				return ures(bridgeApi.GetAllUnwrapTokenRequests(uint32(pi), uint32(ps)))
+				return ures(false)(bridgeApi.GetAllUnwrapTokenRequests(uint32(pi), uint32(ps)))
 			}})
 		add(&instance{Method: "embedded.bridge.getAllUnwrapTokenRequestsByToAddress", Arg: "\"\"", Limit: api.RpcMaxPageSize, Truth: ue, Total: int64(len(ue)), WrapKey: "GetRange:index*count-uint32-wrap",
 			Call: func(pi, ps uint64) (*pagedResult, error) {
-				return ures(bridgeApi.GetAllUnwrapTokenRequestsByToAddress("", uint32(pi), uint32(ps)))
+				return ures(false)(bridgeApi.GetAllUnwrapTokenRequestsByToAddress("", uint32(pi), uint32(ps)))
 			}})
+		for _, ad := range []struct {
+			label string
+			a     types.Address
+		}{{"user1", u1}, {"user3", u3}, {"unknown", unknownAddr}} {
+			ad := ad
+			var mine []*definition.UnwrapTokenRequest
+			for _, x := range unwraps {
+				if x.ToAddress == ad.a {
+					mine = append(mine, x)
+				}
+			}
+			sort.SliceStable(mine, func(i, j int) bool { return mine[i].RegistrationMomentumHeight > mine[j].RegistrationMomentumHeight })
+			var me []elem
+			for _, x := range mine {
+				me = append(me, uid(x, true))
+			}
+			add(&instance{Method: "embedded.bridge.getAllUnwrapTokenRequestsByToAddress", Arg: ad.label, Limit: api.RpcMaxPageSize, Truth: me, Total: int64(len(me)), WrapKey: "GetRange:index*count-uint32-wrap",
+				Call: func(pi, ps uint64) (*pagedResult, error) {
+					return ures(true)(bridgeApi.GetAllUnwrapTokenRequestsByToAddress(ad.a.String(), uint32(pi), uint32(ps)))
+				}})
+		}
 	}
 	return out
 }
@@ -972,16 +1052,22 @@ func checkCell(r *xs.Result, chain string, in *instance, a, b uint64) bool {
 			}
 		}
 	}
-	if same { // equal keys: the elements themselves must still be elements of the expected page (as a set, for ties)
-		es := map[string]int{}
-		for _, e := range exp {
-			es[e.ID]++
+	if same { // equal keys: every element must be a distinct element of the list carrying that key. (Where the documented
+		// order leaves ties open, a tie group may straddle a page boundary, so the page need not hold exactly the elements
+		// a stable sort puts there; that every element is served exactly once is the concatenation property's.)
+		if in.byKey == nil {
+			in.byKey = map[string]map[string]int{}
+			for _, e := range in.Truth {
+				if in.byKey[e.Key] == nil {
+					in.byKey[e.Key] = map[string]int{}
+				}
+				in.byKey[e.Key][e.ID]++
+			}
 		}
+		used := map[string]int{}
 		for _, e := range got {
-			es[e.ID]--
-		}
-		for _, v := range es {
-			if v != 0 {
+			used[e.ID]++
+			if used[e.ID] > in.byKey[e.Key][e.ID] {
 				same = false
 			}
 		}
@@ -1054,6 +1140,13 @@ func checkInstance(c *xs.Ctx, r *xs.Result, chain string, in *instance) {
 	// concatenation: for every legal non-zero size, walking the list page by page yields each element exactly once
 	for _, b := range sizes {
 		if b == 0 || b > in.Limit {
+			continue
+		}
+		if b < 3 && len(in.Truth) > int(in.Limit) && strings.HasPrefix(in.Method, "embedded.bridge.") {
+			// every call of the bridge request lists decodes (and, for the unsigned list, decorates) the whole list of
+			// more than a thousand requests: the walks with page sizes 1 and 2 (1500 calls) are left to sizes 3 and limit;
+			// the grid above still evaluates sizes 1 and 2 at the first, last and out-of-range pages
+			r.Count("a_concatenations_skipped_small_sizes_on_long_bridge_lists", 1)
 			continue
 		}
 		var concat []elem
